@@ -597,11 +597,39 @@ def chars(s):
 # --------------------------------------------------------------------------
 # scratch
 # --------------------------------------------------------------------------
+def _neutral(d):
+    """A place for worlds must not influence what is searched in them: no repository and no ignore file of the three tools in
+    it or above it (fselect, like the tools, looks for them upwards), and reachable by the unprivileged runs (uid 65534)."""
+    p = os.path.realpath(d)
+    while True:
+        if any(os.path.lexists(os.path.join(p, n)) for n in (".git", ".hg", ".hgignore", ".dockerignore")):
+            return False
+        try:
+            if not os.stat(p).st_mode & 0o001:
+                return False
+        except OSError:
+            return False
+        if p == "/":
+            return True
+        p = os.path.dirname(p)
+
+
 def scratch_dir():
-    # under the build directory, not /tmp: the unprivileged runs must be able to reach the worlds, whatever the mode of /tmp is
-    os.makedirs(os.path.join(BUILD, "scratch"), exist_ok=True)
-    d = os.environ.get("VERIF_SCRATCH") or tempfile.mkdtemp(prefix="fselect-verif.", dir=os.path.join(BUILD, "scratch"))
-    os.makedirs(d, exist_ok=True)
+    if os.environ.get("VERIF_SCRATCH"):
+        d = os.environ["VERIF_SCRATCH"]
+        os.makedirs(d, exist_ok=True)
+    else:
+        # the build directory when nothing above it can leak into the searches (e.g. /verif itself being a git repository whose
+        # .gitignore names .build/ would make every world below it "ignored"), otherwise the system's temporary directories
+        own = os.path.join(BUILD, "scratch")
+        os.makedirs(own, exist_ok=True)
+        for base in (own, "/var/tmp", "/tmp", "/dev/shm"):
+            if os.path.isdir(base) and os.access(base, os.W_OK) and _neutral(base):
+                break
+        else:
+            print("TOOL-ERROR no usable scratch location (tried %s, /var/tmp, /tmp, /dev/shm)" % own)
+            sys.exit(2)
+        d = tempfile.mkdtemp(prefix="fselect-verif.", dir=base)
     os.chmod(d, 0o755)
     return d
 
